@@ -269,24 +269,45 @@ def e2e_judge(flavour: str, badness: np.ndarray, failed: np.ndarray, p: float, s
     w[order] = ref_by_rank
     pe = float(Fraction(p))
     j.outcome = f"e2e:m={m}"
-    if result.functions is None:
-        j.fail("e2e-no-functions", flavour=flavour)
-        return j
-    if flavour.startswith("obj"):
-        cols = [0] if flavour == "obj1" else [0, 1]
-        for col in cols:
-            vals = np.where(failed, 0.0, table[:, col])
+
+    def check(result: Any, tag: str) -> None:
+        if result.functions is None:
+            j.fail(f"e2e-no-functions{tag}", flavour=flavour)
+            return
+        if flavour.startswith("obj"):
+            cols = [0] if flavour == "obj1" else [0, 1]
+            for col in cols:
+                vals = np.where(failed, 0.0, table[:, col])
+                expected = float((w * vals).sum() / pe)
+                if not close(result.functions.objectives[col], expected, 1e-9):
+                    j.fail(f"e2e-tail-mean{tag}:{flavour}", column=col, observed=result.functions.objectives[col], expected=expected, p=repr(p))
+            got_w = result.realizations.objective_weights
+            if got_w is None or not np.allclose(got_w[0], w, atol=TOL, rtol=0):
+                j.fail(f"e2e-reported-weights{tag}:{flavour}", observed=got_w, expected=w)
+        else:
+            vals = np.where(failed, 0.0, table[:, n_obj])
             expected = float((w * vals).sum() / pe)
-            if not close(result.functions.objectives[col], expected, 1e-9):
-                j.fail(f"e2e-tail-mean:{flavour}", column=col, observed=result.functions.objectives[col], expected=expected, p=repr(p))
-        got_w = result.realizations.objective_weights
-        if got_w is None or not np.allclose(got_w[0], w, atol=TOL, rtol=0):
-            j.fail(f"e2e-reported-weights:{flavour}", observed=got_w, expected=w)
-    else:
-        vals = np.where(failed, 0.0, table[:, n_obj])
-        expected = float((w * vals).sum() / pe)
-        if not close(result.functions.constraints[0], expected, 1e-9):
-            j.fail(f"e2e-tail-mean:{flavour}", observed=result.functions.constraints[0], expected=expected, p=repr(p))
+            if not close(result.functions.constraints[0], expected, 1e-9):
+                j.fail(f"e2e-tail-mean{tag}:{flavour}", observed=result.functions.constraints[0], expected=expected, p=repr(p))
+
+    check(result, "")
+    # The same point through the combined function+gradient evaluation, with every perturbation of the WORST successful
+    # realization failing: that realization fails for the gradient only, the function value is still the tail mean.
+    from ropt.exceptions import OptimizationAborted
+    from ropt.results import FunctionResults
+
+    worst = int(order[0])
+    evaluator2 = TableEvaluator(fn, n_obj, n_con, fail=lambda call, row, r, pert: [0] if (pert >= 0 and r == worst) else None)
+    try:
+        both = EnsembleEvaluator(config, None, evaluator2, manager).calculate(np.array([0.0]), compute_functions=True, compute_gradients=True)
+    except OptimizationAborted:
+        both = ()  # the gradient side may legitimately end the evaluation; not judged here
+    except Exception as exc:  # noqa: BLE001
+        j.fail("e2e-unexpected-exception:combined:" + exception_name(exc), flavour=flavour)
+        both = ()
+    for item in both:
+        if isinstance(item, FunctionResults):
+            check(item, ":combined-with-perturbation-failures")
     return j
 
 
